@@ -1,6 +1,18 @@
 # per-property configuration of the check driver
 ADDR_TB = ['model: coq/theories/Addr/Model.v (hand-written from src/addr.rs, paging/page.rs, paging/frame.rs, paging/page_table.rs index/offset/level types)']
+MACH_TB = ['model: coq/theories/Machine/{State,Wrappers}.v (mini-ISA transcribed from the manuals + wrapper glue of src/registers/*.rs, src/instructions/{interrupts,port,segmentation,tables,tlb}.rs)',
+ 'software CPU (harness/src/softcpu.rs): SIGSEGV/SIGILL trap-and-emulate of the privileged instructions, emulated register file; hooks H2 (IF overlay) and H4 (XCR0 overlay)',
+ 'translator tools/asm_extract.py (asm! templates, operand bindings, options -> coq/theories/Gen/AsmTable_gen.v, regenerated every run)']
+ASMGEN = [dict(tool='asm_extract.py', args=[])]
 PROPS = {
+ 'C11': dict(engine='mach', profiles=['debug'], gen=ASMGEN, trusted_base=MACH_TB,
+   rule='flush on canonical addresses; flush_all on every low-12-bit pattern of CR3 x random frames; flush_pcid on all 4096 PCIDs x 4 kinds; the INVLPGB builder on ranges (4KiB/2MiB; empty, short, >65535 pages, reaching/spanning the gap, ending at the top) x count_max in {0,1,2,3,7,255,256,65534,65535,random} x 32 option sets; non-trivial = more than one request or the range touches the gap/top, or CR3 low bits outside the two flag bits'),
+ 'C16': dict(engine='mach', profiles=['debug', 'release'], gen=ASMGEN, trusted_base=MACH_TB,
+   rule='one wrapper call per case on a prior register file (all-ones, single bits, reserved-only, modelled-only, random) with bystander registers of the same class set to distinct values; arguments: flag subsets incl. undeclared bits, frames, all PCIDs, selector quadruples around the documented relations, PAT tables, DR7 fields; non-trivial = prior content has a bit outside the modelled mask, or the call is rejected/panics'),
+ 'C17': dict(engine='mach', profiles=['debug'], gen=ASMGEN, trusted_base=MACH_TB,
+   rule='both initial flag states x all nesting shapes (branching <= 2) to depth 3 (thorough: 4) exhaustively, then random trees to depth 6 (thorough: 12) with branching <= 3; enable/disable/are_enabled/enable_and_hlt/hlt; non-trivial = at least two nested without_interrupts'),
+ 'C18': dict(engine='mach', profiles=['debug'], gen=ASMGEN, trusted_base=MACH_TB, exhaustive=True,
+   rule='all 65536 ports x 3 widths x {read, write} (exhaustive in ports and widths) with boundary/random values and both access kinds per direction; eq/clone on equal, one-bit-different and random port pairs; non-trivial = port 0, 0xffff or a power of two, or an all-zeros/all-ones value'),
  'C08': dict(engine='pte', profiles=['debug'], trusted_base=['model: coq/theories/Paging/Entry.v (PageTableEntry, PageTable of src/structures/paging/page_table.rs); struct layout chosen by rustc (repr(C, align(4096)), repr(transparent)) is observed on the compiled artefact, not proved'],
    rule='raw entries through every getter; programs of 1-8 setters (set_addr/set_frame/set_flags/set_unused) over aligned addresses x flag sets from bits 0-11 and 52-63 (plus misaligned addresses and undeclared/PAT_HUGE_PAGE flags as the malformed stream); every one of the 512 slots written through each of the three write paths and read back through all four read paths and raw bytes (exhaustive in slots and paths); non-trivial = program stores a non-zero address with non-zero flags, or a table with at least one write',
    assumptions=['known finding F7a (flags() reports PAT_HUGE_PAGE when address bit 12 is set) is classified by the oracle and listed in known_findings.txt']),
